@@ -97,6 +97,8 @@ def exh(acc, k, asg, univ, shard, nshards):
                     harness.process(mod, acc, "cellpair", {"pts": names, "a": ma, "b": mb, "univ": univ, "op": op}, layer, isolate=False)
                 continue
             for op, r, exp in res:
+                if r is None:
+                    continue
                 bad = _check_result(acc, "cellpair", None, op, r, exp, full, objs, pts_set, pts, (ma + mb) % n)
                 if bad:
                     acc.fail("cellpair", bad[0], {"pts": names, "a": ma, "b": mb, "univ": univ, "op": op}, expected=bad[1], got=bad[2])
@@ -164,10 +166,20 @@ def evaluate(kind, case, acc):
         steps.append(("or", (a, b), a | b))
         steps.append(("not", (a,), ~a))
     results = [("parse", (), l) for l in leaves] + steps
+    malformed = []
     for op, operands, r in results:
         probs = canonical_problems(r)
         if probs:
             acc.fail(kind, f"{op}:non-canonical:{probs[0]}", case, expected="canonical shape", got={"problems": probs, "result": describe(r)})
+            try:
+                bounds(r, *operands)
+            except ModelError:
+                malformed.append(r)
+            continue
+        try:
+            bounds(r, *operands)
+        except ModelError:  # an operand produced by an earlier (already reported) step is malformed
+            malformed.append(r)
             continue
         bs = bounds(r)
         m = cellmask(r, bs)
@@ -190,7 +202,7 @@ def evaluate(kind, case, acc):
                 acc.fail(kind, "and:is_empty-vs-operands", case, expected=((mx & my) == 0), got=r.is_empty())
             if op == "or" and r.is_any() != ((mx | my) == fxy):
                 acc.fail(kind, "or:is_any-vs-operands", case, expected=((mx | my) == fxy), got=r.is_any())
-    objs = [r for _, _, r in results] + extra
+    objs = [r for _, _, r in results if not any(r is m for m in malformed)] + extra
     for x, y in itertools.combinations(objs, 2):
         same = same_set(x, y)
         for p, q in ((x, y), (y, x)):
